@@ -11,6 +11,7 @@ Template directives (lines starting with //@):
   //@ before `anchor` << ... //@ >>        proof text inserted before the line containing anchor
   //@ after `anchor` << ... //@ >>         proof text inserted after the line containing anchor
   //@ bodystart << ... //@ >>              proof text at the start of the fn body
+  //@ afterloop <n> << ... //@ >>          proof text right after the closing brace of loop ordinal n
   //@ rewrite <RULE> `from` => `to`        literal rewrite (rules X4/X5/X7/X9), reported; must match
   //@ rewrite-re <RULE> `regex` => `to`    regex rewrite, reported; must match
   //@ prefix <text>                        text put in front of the item (e.g. an attribute)
@@ -37,17 +38,29 @@ class TemplateError(Exception):
     pass
 
 
+X1_NAMES = ("inline", "allow", "derive", "doc", "must_use", "cfg_attr", "prototk", "deprecated", "arrrg")
+
+
 def _strip_x1_x2(text: str, log: list) -> str:
-    out = []
-    for ln in text.split("\n"):
-        s = ln.strip()
-        if s.startswith("///") or s.startswith("//!"):
+    # doc comments
+    text = "\n".join(l for l in text.split("\n") if not l.strip().startswith(("///", "//!")))
+    # attributes (possibly multi-line), found on the masked text
+    mask = mask_source(text)
+    out, pos = [], 0
+    for m in re.finditer(r"#\s*\[", mask):
+        if m.start() < pos:
             continue
-        if X1_ATTR.match(ln):
-            log.append(("X1", s))
-            continue
-        out.append(ln)
-    t = "\n".join(out)
+        ob = mask.index("[", m.start())
+        cb = match_brace(mask, ob)
+        name = re.match(r"\s*([A-Za-z_:]+)", mask[ob + 1:cb])
+        nm = name.group(1) if name else ""
+        if nm in X1_NAMES:
+            out.append(text[pos:m.start()])
+            pos = cb + 1
+            log.append(("X1", "#[" + re.sub(r"\s+", " ", text[ob + 1:cb])[:80] + "]"))
+    out.append(text[pos:])
+    t = "".join(out)
+    t = "\n".join(l for l in t.split("\n") if l.strip() != "" or True)
     t2 = re.sub(r"\bpub(\([a-z: ]+\))?\s+", "", t)
     if t2 != t:
         log.append(("X2", "pub stripped"))
@@ -114,6 +127,10 @@ def parse_template(path: str):
                     m = re.match(r"//@ (before|after) `(.*)` <<", t)
                     body, i = multiline(i)
                     blk["inserts"].append((m.group(1), m.group(2), body))
+                elif t.startswith("//@ afterloop "):
+                    n = int(t.split()[2])
+                    body, i = multiline(i)
+                    blk["inserts"].append(("afterloop", n, body))
                 elif t.startswith("//@ bodystart <<"):
                     body, i = multiline(i)
                     blk["inserts"].append(("bodystart", None, body))
@@ -172,6 +189,22 @@ def build_item(repo: str, blk: dict, report: dict):
     key = f"{blk['file']}::{blk['path']}"
     report["items"].append(dict(item=key, src_line=rf.line_of(it["kw"]), sha256_16=sha, rules=[f"{r}: {d}" for r, d in log],
                                 external_body=blk["external_body"]))
+    if kind == "const" and (blk["post"] or blk["inserts"]):
+        # X6 on a const:  `const N: T = EXPR;`  ->  `exec const N: T ensures .. { proof {..} EXPR }`  (EXPR verbatim)
+        m = re.match(r"\s*const\s+(\w+)\s*:\s*([^=]+?)\s*=\s*(.*);\s*(/\*.*\*/)?\s*$", text, re.S)
+        if not m:
+            raise TemplateError(f"{key}: cannot restructure const")
+        out = [(p, "glue") for p in blk["prefix"]]
+        out.append((f"exec const {m.group(1)}: {m.group(2)}", "sig"))
+        if blk["post"]:
+            out.append(("    ensures", "glue"))
+            out += [(l, "post") for l in blk["post"].split("\n")]
+        out.append(("{", "glue"))
+        for where, anchor, txt in blk["inserts"]:
+            out += [(l, "proof") for l in txt.split("\n")]
+        out += [(l, "code") for l in m.group(3).split("\n")]
+        out.append(("}", "glue"))
+        return out
     if kind != "fn":
         lines = [(l, "code") for l in text.split("\n")]
         return [(p, "glue") for p in blk["prefix"]] + lines
@@ -222,6 +255,12 @@ def build_item(repo: str, blk: dict, report: dict):
     for where, anchor, txt in blk["inserts"]:
         if where == "bodystart":
             ins.append((1, "\n" + txt + "\n", "proof"))
+            continue
+        if where == "afterloop":
+            if anchor >= len(loops):
+                raise LostAnchor(f"{key}: loop #{anchor} not found ({len(loops)} loops)")
+            close = match_brace(bmask, loops[anchor][1])
+            ins.append((close + 1, "\n" + txt + "\n", "proof"))
             continue
         k = body.find(anchor)
         if k < 0:
